@@ -89,13 +89,13 @@ def gen_chain(rng, mod):
     n = rng.randint(1, 7)
     lines = [f"module {mod}"]
     frames = []          # expected, outermost first (after the file frame)
-    kinds = [rng.choice(["plain", "plain", "tail", "closure", "async"]) for _ in range(n)]
+    kinds = [rng.choice(["plain", "plain", "tail", "closure", "async", "async_late"]) for _ in range(n)]
     kinds[-1] = "throw"
     pending_tco = 0
     for i, k in enumerate(kinds):
         name = f"m{i}"
         nxt = f"m{i + 1}(x)"
-        hdr = f"  async def {name}(x: Int): Int" if (i > 0 and kinds[i - 1] == "async") else f"  def {name}(x: Int): Int"
+        hdr = f"  async def {name}(x: Int): Int" if (i > 0 and kinds[i - 1] in ("async", "async_late")) else f"  def {name}(x: Int): Int"
         lines.append(hdr)
         for _ in range(rng.randint(0, 2)):
             lines.append(rng.choice(["    # filler", "    var pad%d = x + %d" % (len(lines), rng.randint(1, 9)), ""]))
@@ -113,6 +113,16 @@ def gen_chain(rng, mod):
             pending_tco = 0
         elif k == "async":
             lines.append(f"    1 + await {nxt}")
+            frames.append((f"{mod}::{name}", len(lines), pending_tco))
+            pending_tco = 0
+        elif k == "async_late":
+            # the promise is already settled (rejected) when it is awaited: the fast path of AWAIT
+            lines.append(f"    var pr = {nxt}")
+            lines.append("    var spin = 0")
+            lines.append("    while spin < 20000")
+            lines.append("      spin += 1")
+            lines.append("    end")
+            lines.append("    1 + await pr")
             frames.append((f"{mod}::{name}", len(lines), pending_tco))
             pending_tco = 0
         elif k == "tail":
